@@ -116,6 +116,26 @@ type gatherResult struct {
 }
 
 func (te *taskEnv) execProm(op *Op, rec *OpRec) bool {
+	if op.K == "promreg" {
+		// the application registers a family itself, ahead of its first use, with
+		// the label names in an order of its own (Str = "kind:key1,key2,...")
+		st, _ := te.env.ext.(*promState)
+		if st == nil {
+			return true
+		}
+		kind, keys, _ := strings.Cut(op.Str, ":")
+		var err error
+		switch kind {
+		case "counter":
+			_, err = st.rep.RegisterCounter(op.Name, strings.Split(keys, ","), "registered ahead of use")
+		case "gauge":
+			_, err = st.rep.RegisterGauge(op.Name, strings.Split(keys, ","), "registered ahead of use")
+		}
+		if err != nil {
+			rec.Err = err.Error()
+		}
+		return true
+	}
 	if op.K != "gather" {
 		return false
 	}
@@ -228,6 +248,38 @@ func genC17(g *Gen, tier string) *Program {
 				scopes = append(scopes, nextS)
 				nextS++
 			case 1:
+				if !conflict && t == 0 && g.Bool(3) {
+					// a family the application registered itself ahead of use, with its
+					// label names in an order that is not the alphabetical one
+					if !strings.Contains(keysOf[0], "_zone") && !strings.Contains(keysOf[0], "_host_id") {
+						kind := pick(g, "counter", "gauge")
+						sa, sb := nextS, nextS+1
+						nextS += 2
+						keys := []string{"zone", "host_id"}
+						for k := range c.RootTags {
+							keys = append(keys, k)
+						}
+						sorted := append([]string(nil), keys...)
+						sort.Strings(sorted)
+						nm := kind[:1] + "_prereg_k" + strings.Join(sorted, "")
+						full := nm
+						if c.Prefix != "" {
+							full = c.Prefix + promreporter.DefaultSeparator + nm
+						}
+						p.Prelude = append(p.Prelude, Op{K: "promreg", Name: full, Str: kind + ":" + strings.Join(keys, ",")})
+						ops = append(ops,
+							Op{K: "tag", S: 0, D: sa, Tags: map[string]string{"zone": "a"}},
+							Op{K: "tag", S: sa, D: sb, Tags: map[string]string{"host_id": "b"}},
+							Op{K: kind, S: sb, M: nextM, Name: nm})
+						if kind == "counter" {
+							ops = append(ops, Op{K: "inc", M: nextM, I: 5})
+						} else {
+							ops = append(ops, Op{K: "upd", M: nextM, F: f64bits(7.5)})
+						}
+						nextM++
+						continue
+					}
+				}
 				if !conflict && t == 0 && g.Bool(3) {
 					// two series of one histogram family (same name, same tag keys,
 					// different tag values) requested with different bucket sets
